@@ -535,7 +535,7 @@ func facts(p *gen.Pkg, l *gen.Lean) error {
 		}
 		found := false
 		for _, st := range list {
-			if p.Src(st) == r+".enqueueSave()" {
+			if src := p.Src(st); src == r+".enqueueSave()" || src == "defer "+r+".enqueueSave()" {
 				found = true
 			}
 		}
